@@ -61,9 +61,6 @@ func genC05Plan(r *sim.Rng, tier string) PayloadPlan {
 			it = WireItem{Type: 9, Gen: "seqhdr_annexb", N: r.Intn(24), Shape: r.Intn(64)}
 		case 14:
 			depth := []int{3, 100, 5000, 70000, 400000}[r.Intn(5)]
-			if tier == "thorough" && r.Bool(0.3) {
-				depth = 2000000
-			}
 			it = WireItem{Type: 18, Gen: []string{"meta_nest_arr", "meta_nest_ecma", "meta_objvals", "meta_objvals"}[r.Intn(4)], N: depth, Shape: r.Intn(64)}
 			if it.Gen == "meta_objvals" {
 				it.N = r.Intn(60)
